@@ -2,6 +2,7 @@
 
 R20.1  string-shape abstract interpretation of every NameSanitizer name function: for *every* input string the result is
        non-empty, starts with an identifier-start character, contains only identifier characters, and is not a keyword
+R20.4  parameters of one operation keep distinct identifiers and none is dropped or merged (override keys, name-space consistency)  [= R4.4]
 R20.3  validated-return functions (enum member names): the return is dominated by the function's own validity test
        (`raise` unless fullmatch [A-Z_][A-Z0-9_]*) and preceded by the keyword suffix
 R20.2  de-duplication soundness per namespace: membership test in an accumulating set, rename in a loop until unused,
@@ -73,6 +74,10 @@ def run(repo: Repo, rep: Report, tier: str) -> None:
             rep.violation("R20.1", f"{utils.relpath}:NameSanitizer.{q}", f"unlisted-sanitizer|{q}",
                           "a new sanitize_* function is not covered by the shape analysis table", m.loc())
 
+    # ---------------------------------------------------------------- R20.4 parameter identifiers stay distinct and none is merged away
+    from rules._reuse import reuse as _reuse20
+
+    _reuse20(repo, rep, "c04", {"R4.4": "R20.4"})
     # ---------------------------------------------------------------- R20.3 validated returns
     eg = repo.module("visit.model.enum_generator").classes.get("EnumGenerator")
     if eg is None:
